@@ -155,3 +155,66 @@ Theorem C01_variant_early_release_refuted :
     nth_error (thr s) 0 = Some (Get "aaa1"%string, Fin r) /\ code r = 200 /\ body r = Some c /\ ex_pool_H c <> "aaa1"%string.
 Proof. exact pool_early_release_refuted. Qed.
 Print Assumptions C01_variant_early_release_refuted.
+
+(* ---- uploads that do not arrive completely (op PutShort: Content-Length n, the body stops or fails
+   after the bytes d); [sp] is any representation of the mixture such a read leaves in the buffer ---- *)
+
+(* the linearization theorem holds for every such representation *)
+Theorem C01_overlapping_requests_linearizable_any_splice : forall (H : content -> string) k bufs m reqs sp ls s,
+  NoDup bufs ->
+  steps H (init_pool_gen k bufs m reqs false false false sp) ls = Some s ->
+  map fst (run H k (lin_ops s)) = lin_resps s /\
+  ks s = run_state H k (lin_ops s) /\
+  (forall i o r, nth_error (thr s) i = Some (o, Fin r) -> In (i, o, r) (lin s)) /\
+  (forall i o r, In (i, o, r) (lin s) -> nth_error reqs i = Some o).
+Proof. exact pool_linearizable_any_splice. Qed.
+Print Assumptions C01_overlapping_requests_linearizable_any_splice.
+
+(* a buffer is handed to at most one request at a time: in every reachable state the pool holds no buffer
+   twice, a buffer held by a request is not in the pool, and no two requests hold the same buffer --
+   whatever is in flight, failed uploads included *)
+Theorem C01_pool_buffer_exclusive : forall (H : content -> string) k bufs m reqs sp ls s,
+  NoDup bufs ->
+  steps H (init_pool_gen k bufs m reqs false false false sp) ls = Some s ->
+  NoDup (free s) /\
+  (forall i o p b, nth_error (thr s) i = Some (o, p) -> holds p = Some b -> ~ In b (free s)) /\
+  (forall i j o p o' p' b, i <> j -> nth_error (thr s) i = Some (o, p) -> nth_error (thr s) j = Some (o', p') ->
+                           holds p = Some b -> holds p' = Some b -> False).
+Proof. exact pool_buffer_exclusive. Qed.
+Print Assumptions C01_pool_buffer_exclusive.
+
+(* a PUT whose body does not arrive completely is never acknowledged, whatever its buffer held before
+   (e.g. the same block, left by the previous request) and whatever else is in flight *)
+Theorem C01_short_put_never_acknowledged : forall (H : content -> string) k bufs m reqs sp ls s i h d n r,
+  NoDup bufs ->
+  steps H (init_pool_gen k bufs m reqs false false false sp) ls = Some s ->
+  nth_error (thr s) i = Some (PutShort h d n, Fin r) ->
+  code r = 413 \/ code r = 503 \/ code r = 500.
+Proof. exact pool_short_put_never_acked. Qed.
+Print Assumptions C01_short_put_never_acknowledged.
+
+(* regression witness about the VARIANT lenient only (handlePUT goes on to PutBlock after a short read): the
+   request after a complete PUT of "aaa1" gets the same buffer, its body stops after 2 of 4 bytes (which
+   hash to something else), the stale tail completes the block, and the PUT is acknowledged *)
+Theorem C01_variant_lenient_short_read_refuted :
+  exists s r,
+    steps ex_pool_H (init_pool_gen {| vols := ex_pool_vols; counter := 0 |} [0%nat] (fun _ => {| cid := 9; clen := 0 |})
+                       [Put "aaa1"%string {| cid := 1; clen := 4 |}; PutShort "aaa1"%string {| cid := 7; clen := 2 |} 4]
+                       false true false (fun _ old _ => old)) ex_short_sched = Some s /\
+    nth_error (thr s) 1 = Some (PutShort "aaa1"%string {| cid := 7; clen := 2 |} 4, Fin r) /\ code r = 200 /\
+    ex_pool_H {| cid := 7; clen := 2 |} <> "aaa1"%string.
+Proof. exact pool_lenient_short_read_refuted. Qed.
+Print Assumptions C01_variant_lenient_short_read_refuted.
+
+(* regression witness about the VARIANT twice only (a failed upload gives its buffer back twice): the pool
+   then hands buffer 0 to two requests at once, and GET "aaa1" answers 200 with the bytes a PUT of "bbb2"
+   uploaded meanwhile *)
+Theorem C01_variant_double_release_refuted :
+  exists s r c p2,
+    steps ex_pool_H (init_pool_gen {| vols := ex_pool_vols; counter := 0 |} [0%nat; 1%nat] (fun _ => {| cid := 9; clen := 0 |})
+                       [PutShort "aaa1"%string {| cid := 7; clen := 2 |} 4; Get "aaa1"%string; Put "bbb2"%string {| cid := 2; clen := 4 |}]
+                       false false true (fun d _ _ => d)) ex_twice_sched = Some s /\
+    nth_error (thr s) 1 = Some (Get "aaa1"%string, Fin r) /\ code r = 200 /\ body r = Some c /\ ex_pool_H c <> "aaa1"%string /\
+    nth_error (thr s) 2 = Some (Put "bbb2"%string {| cid := 2; clen := 4 |}, p2) /\ holds p2 = Some 0%nat /\ In 0%nat (free s).
+Proof. exact pool_double_release_refuted. Qed.
+Print Assumptions C01_variant_double_release_refuted.
